@@ -43,12 +43,42 @@ type claimState struct {
 	inst  *world.Instance
 	node  string
 	dead  bool
+	// faulted: the launching reconcile of this claim has already lost a write once
+	faulted bool
 }
 
 // advance moves a claim one stage forward with the real lifecycle controller and the kubelet actor.
+// faultRng (set per case) lets the launching reconcile lose a write now and then; faultsInjected counts them.
+var faultRng *rand.Rand
+var faultsInjected int
+
 func advance(e *world.Env, c *claimState) {
 	switch c.stage {
 	case world.StageCreated:
+		if faultRng != nil && !c.faulted && faultRng.Intn(4) == 0 {
+			// the launching reconcile loses one of its NodeClaim writes (500, once); the retry comes with a later step. What the
+			// failed reconcile did persist decides whether the claim already counts as launched.
+			c.faulted = true
+			k := 1 + faultRng.Intn(3)
+			e.API.SetFaults(&world.Fault{AtCall: k, Kind: "500", Match: func(verb, kind, caller string) bool {
+				return kind == "NodeClaim" && (verb == "patch" || verb == "status-patch" || verb == "update" || verb == "status-update")
+			}})
+			_, _ = e.ReconcileClaim(c.name)
+			_, _ = e.ReconcileClaim(c.name)
+			e.API.ClearFaults()
+			faultsInjected++
+			nc := &v1.NodeClaim{}
+			if e.API.Raw.Get(context.Background(), types.NamespacedName{Name: c.name}, nc) != nil || !nc.DeletionTimestamp.IsZero() {
+				c.dead = true
+				return
+			}
+			if nc.Status.ProviderID == "" {
+				return // still unlaunched as far as anybody can tell: retried later
+			}
+			c.inst = e.Provider.Instance(nc.Status.ProviderID)
+			c.stage = world.StageLaunched
+			return
+		}
 		for i := 0; i < 2; i++ {
 			_, _ = e.ReconcileClaim(c.name)
 		}
@@ -85,6 +115,9 @@ func run(r *mon.Report, tier string, idx int, rng *rand.Rand) {
 	s := common.Build(rng, cfg)
 	e := s.Env
 	r.Eval()
+	faultRng = rand.New(rand.NewSource(rng.Int63()))
+	faultsInjected = 0
+	defer func() { r.Count("launching_reconciles_that_lost_a_nodeclaim_write", faultsInjected) }()
 	// some pools get startup taints (must not count against pods while the node is uninitialised)
 	for _, np := range s.Pools {
 		if rng.Intn(3) == 0 {
